@@ -880,11 +880,6 @@ def _draw_tree(draw, ctx, kind, depth):
     return _draw_tree(draw, ctx, "pos", d)
 
 
-def _nonzero(draw, hi):
-    k = draw(st.integers(-hi, hi - 1))
-    return k if k < 0 else k + 1
-
-
 def _draw_column(draw, lo, hi, G):
     return [x / 100.0 for x in draw(st.lists(st.integers(lo, hi), min_size=G, max_size=G))]
 
